@@ -46,6 +46,10 @@ func checkC05(c *core.Ctx) {
 	ruleTemporalClauses(c)
 	// "accounts appear only once their first usage is at or before t": first_usage must follow
 	// back-dated transactions (shared with C18)
+	// the effective-date point-in-time reads take post_commit_effective_volumes as the fold up to
+	// (effective_date, seq): the trigger functions that maintain it are part of this property too
+	ruleEffectiveVolumesFunctions(c)
+	ruleCurrentTableOnlyWithoutWindow(c)
 	ruleAccountsLifecycle(c)
 }
 
@@ -388,4 +392,51 @@ func eqStrings(a, b []string) bool {
 		}
 	}
 	return true
+}
+
+// ruleCurrentTableOnlyWithoutWindow (TEMP): accounts_volumes holds the totals "now". A handler that
+// can be asked for a point in time (PIT) or a start of window (OOT) may answer from it only when
+// neither is set; otherwise the bound is silently ignored and all-time totals are returned.
+func ruleCurrentTableOnlyWithoutWindow(c *core.Ctx) {
+	m := bunModel(c, pkgStore)
+	n := 0
+	for _, h := range []string{"volumesResourceHandler"} {
+		d := fn(c, pkgStore, h, "BuildDataset")
+		if d == nil {
+			continue
+		}
+		info := d.Pkg.TypesInfo
+		for _, ss := range stmtsInScope(c, m, d, 1) {
+			s := ss.S
+			isCurrent := false
+			for _, t := range s.Tables() {
+				if t == "accounts_volumes" {
+					isCurrent = true
+				}
+			}
+			if !isCurrent || s.Kind != "select" {
+				continue
+			}
+			n++
+			noPIT, noOOT := false, false
+			for _, f := range scopeFactsAtPos(d, ss.D, s.Pos()) {
+				call, ok := ast.Unparen(f.Cond).(*ast.CallExpr)
+				if !ok || f.Positive {
+					continue
+				}
+				if se, ok := call.Fun.(*ast.SelectorExpr); ok {
+					switch se.Sel.Name {
+					case "UsePIT":
+						noPIT = true
+					case "UseOOT":
+						noOOT = true
+					}
+				}
+			}
+			_ = info
+			c.Check(noPIT && noOOT, "TEMP/current-table", fmt.Sprintf("%s:%s", declKey(d), s.Describe()), posOf(c, s.Pos()), "accounts_volumes only when neither PIT nor OOT is set",
+				fmt.Sprintf("the volumes listing answers from accounts_volumes (totals as of now) on a path where a bound may be set (no-PIT=%v no-OOT=%v): the point in time or the start of the window is ignored and all-time totals are returned", noPIT, noOOT))
+		}
+	}
+	c.Floor("TEMP/current-table", "selects from accounts_volumes in windowed listings", n, 1)
 }
